@@ -302,3 +302,38 @@ func VerifCronRemoveWhileWaking() {
 	<-ctx.Done()
 	zzverif.Cover("cron_remove_while_waking_done")
 }
+
+// Schedule immediately followed by Remove of the new entry while the scheduler is busy with a wake-up: once Remove
+// has returned the entry is gone - Entries does not list it and its job is never started, however the scheduler
+// interleaves the two requests with its wake-up; the entry that was there before keeps its activations.
+//
+//verif:harness prop=C05 name=cron_add_then_remove threads=6 sched=delay preempt=3 t_preempt=4 unwind=12 witness=lenient
+func VerifCronAddThenRemove() {
+	start := zzverif.TimeFromNanos(1_000_000_000_000)
+	clk := zzverifstubs.NewClock(start)
+	c := New(WithClock(clk), WithLogger(vLogger{}), WithLocation(time.UTC))
+	p := time.Duration(1+zzverif.Choose("period", 2)) * time.Second
+	runs, otherRuns := 0, 0
+	c.Schedule(vEvery{p}, FuncJob(func() { zzverif.Ghost(func() { otherRuns++ }) }))
+	c.Start()
+	zzverif.WaitQuiescent()
+	if zzverif.Bool("scheduler_busy") {
+		clk.AdvanceTo(start.Add(p)) // the scheduler has been woken and may be anywhere in its wake-up
+	}
+	id := c.Schedule(vEvery{p}, FuncJob(func() { zzverif.Ghost(func() { runs++ }) }))
+	c.Remove(id)
+	for _, e := range c.Entries() {
+		zzverif.Assert(e.ID != id, "removed_entry_not_listed")
+	}
+	zzverif.WaitQuiescent()
+	clk.AdvanceTo(start.Add(4 * p))
+	zzverif.WaitQuiescent()
+	zzverif.Assert(runs == 0, "entry_removed_right_after_it_was_added_never_starts")
+	zzverif.Assert(otherRuns >= 1, "other_entry_unaffected")
+	for _, e := range c.Entries() {
+		zzverif.Assert(e.ID != id, "removed_entry_not_listed")
+	}
+	ctx := c.Stop()
+	<-ctx.Done()
+	zzverif.Cover("cron_add_then_remove_done")
+}
